@@ -242,6 +242,50 @@ def _define_chunk(chunk):
     return len(chunk), nt, fails
 
 
+FILE_LINES = ['#mesondefine V', 'plain @V@ text', 'x\f#mesondefine W', '#mesondefine T\f', 'a\x0bb @W@', 'p\x1cq #mesondefine V', 'u\x85#mesondefine V', 'z\u2028#mesondefine V',
+              '\u2029', '', '  #mesondefine F', 'k\x1d\x1e#mesondefine V']
+FILE_SEPS = ['\n', '\r\n', '\r']
+
+
+def _file_chunk(chunk):
+    """whole template FILES through do_conf_file: the file is cut into lines at \\n, \\r\\n and \\r only (what a text editor
+    and the C preprocessor call a line); form feed, vertical tab, the FS/GS/RS controls, NEL, U+2028/9 are ordinary characters"""
+    import os, re, tempfile
+    from mesonbuild.utils.universal import do_conf_file
+    from mesonbuild.utils.core import MesonException
+    conf = DCONFS[1]
+    fails, nt = [], 0
+    d = tempfile.mkdtemp(prefix='c14file')
+    try:
+        for lines, seps in chunk:
+            text = ''.join(l + s_ for l, s_ in zip(lines, seps))
+            exp = []
+            for ln in re.findall(r'[^\r\n]*(?:\r\n|\r|\n)|[^\r\n]+', text):
+                if ln.lstrip().startswith('#mesondefine'):
+                    exp.append(spec_define(ln, conf))
+                else:
+                    exp.append(spec_replace(ln, conf)[0])
+            exp = 'error' if 'error' in exp else ''.join(exp)
+            src, dst = os.path.join(d, 'in'), os.path.join(d, 'out')
+            with open(src, 'w', encoding='utf-8', newline='') as f:
+                f.write(text)
+            try:
+                do_conf_file(src, dst, CD(conf), 'meson')
+                with open(dst, encoding='utf-8', newline='') as f:
+                    got = f.read()
+            except MesonException:
+                got = 'error'
+            except Exception as ex:
+                got = f'internal {type(ex).__name__}: {ex}'
+            nt += 1
+            if got != exp:
+                fails.append({'case': {'lines': list(lines), 'separators': list(seps)}, 'stage': 'file', 'detail': f'the file {text!r} is rendered as {got!r}, line by line it should be {exp!r}'})
+    finally:
+        import shutil
+        shutil.rmtree(d, ignore_errors=True)
+    return len(chunk), nt, fails
+
+
 DCONFS = [{}, {'V': 'text', 'W': 3, 'T': True, 'F': False, 'X': 'y'}, {'V': '@X@', 'X': 'y', 'W': 0}, {'V': ' spaced ', 'W': -5}]
 
 
@@ -266,8 +310,27 @@ def _header_chunk(chunk):
     return len(chunk) * 3, nt, fails
 
 
+def file_cases():
+    out = []
+    for l1 in FILE_LINES:
+        for s1 in FILE_SEPS:
+            out.append(((l1,), (s1,)))
+            out.append(((l1,), ('',)))
+            for l2 in FILE_LINES:
+                for s2 in FILE_SEPS + ['']:
+                    if l2 == '' and s2 == '':
+                        continue
+                    out.append(((l1, l2), (s1, s2)))
+    return out
+
+
 def run(REG, tier, seed, jobs):
     parts = []
+    fc = file_cases()
+    ev, nt, fails = pmap(_file_chunk, chunked(iter(fc), 100), jobs)
+    parts.append({'name': 'C14/bounded/whole-files-line-by-line', 'function': 'do_conf_file (real files, meson format)',
+                  'bound': f'{len(fc)} template files of 1-2 lines over {len(FILE_LINES)} line bodies (define lines, placeholders, and the characters str.splitlines treats as line ends but a text file does not: FF, VT, FS, GS, RS, NEL, U+2028, U+2029, before and after a directive) x line ends LF / CRLF / CR / none at the end',
+                  'evaluations': ev, 'distinct_nontrivial': nt, 'rule': 'every file', 'exhaustive': True, 'failures': fails})
     alpha = ['@', '\\', 'A', 'b', 'N', 'x', '-', ' ', '$', '{', '}']
     n = 5 if tier == 'quick' else 6
     ev, nt, fails = pmap(_meson_chunk, chunked(strings(alpha, n), 20000), jobs)
@@ -306,6 +369,7 @@ def run(REG, tier, seed, jobs):
 
 
 CHECKS = {
+    'C14/bounded/whole-files-line-by-line': (_file_chunk, lambda c: (tuple(c['lines']), tuple(c['separators']))),
     'C14/bounded/meson-format-vs-single-pass-scanner': (_meson_chunk, lambda c: c['template']),
     'C14/bounded/mesondefine-rendering': (_define_chunk, lambda c: (c['line'], c['conf'])),
 }
